@@ -33,7 +33,7 @@ def run():
     for kind in ('IL', 'CL'):
         t = ['AllocCache c1 s1 m1 jit=1', 'InitCache c1 K1', 'AllocDataset d1 dm1 nchunks=2', 'InitDatasetChunk d1 c1 1 self=1', 'InitDatasetChunk d1 c1 2 self=1',
              'CreateVm v1 %s c1 d1 v2=1 hard=0 secure=0' % kind, 'Hash v1 I1 key=K1', 'SetDataset v1 d1', 'Hash v1 I2 key=K1', 'DestroyVm v1',
-             'CreateVm v1 %s c1 d1 v2=0 hard=0 secure=0' % ('IF' if kind == 'IL' else 'CF'), 'Hash v1 I1 key=K1', 'DestroyVm v1', 'ReleaseDataset d1', 'ReleaseCache c1']
+             'CreateVm v1 %s c1 d1 v2=0 hard=0 secure=0' % ('IF' if kind == 'IL' else 'CF'), 'Hash v1 I1 key=K1', 'SetCache v1 c1', 'Hash v1 I2 key=K1', 'DestroyVm v1', 'ReleaseDataset d1', 'ReleaseCache c1']
         scens.append({'text': '\n'.join(t) + '\n', 'ks': 0, 'iset': 1, 'full': True})
     tabs = apiscen.fresh_tables(sorted(set((s['ks'], s['iset']) for s in scens)), lambda c: ['IL', 'CL', 'IF', 'CF'] if c == (0, 1) else ['IL', 'CL'], os.path.join(wd, 'fresh'))
     for s in scens:
